@@ -478,8 +478,17 @@ impl<'a> IRCodeGen<'a> {
             S::Assignment { op, target, value, .. } => {
                 let res = self.var();
                 let (pre_code, current, post_code) = match &target {
-                    E::Read { var, .. } => {
+                    E::Read { var, .. } if matches!(op, BinOp::Nop) => {
                         (Vec::new(), Var(*var), vec![IR::Assign(Var(*var), res)])
+                    }
+                    E::Read { var, .. } => {
+                        // `a += f()` reads `a` before `f` is called - like `a = a + f()` does.
+                        let current = self.var();
+                        (
+                            vec![IR::Copy(current, Var(*var))],
+                            current,
+                            vec![IR::Assign(Var(*var), res)],
+                        )
                     }
                     E::Index { value, index, .. } => {
                         let (aops, a) = self.expression(value, ctx);
